@@ -93,6 +93,19 @@ pub struct Vals {
 }
 
 /// what a typed visitor saw
+/// What the recording visitor makes of a `&dyn Debug`: the text under three format specs (plain,
+/// alternate, width + precision), so that a wrapper which does not hand the visitor's formatter
+/// through to the value shows up. `dbg3` / `disp3` / `msg3` build the expected counterpart from
+/// the value itself (`?` sigil / `%` sigil / a format-string message, which ignores outer flags).
+pub fn dbg3<T: std::fmt::Debug + ?Sized>(v: &T) -> String {
+    format!("{:?}\u{1}{:#?}\u{1}{:>14.3?}", v, v, v)
+}
+pub fn disp3<T: std::fmt::Display + ?Sized>(v: &T) -> String {
+    format!("{}\u{1}{:#}\u{1}{:>14.3}", v, v, v)
+}
+pub fn msg3(m: String) -> String {
+    format!("{m}\u{1}{m}\u{1}{m}")
+}
 #[derive(Debug, Clone, PartialEq)]
 pub enum Seen {
     U64(u64),
